@@ -1,5 +1,6 @@
 import Driver.Util
 import RPVerif.Model.Pipeline
+import RPVerif.Gen.States
 open Lean RPVerif.Pipeline RPVerif.States
 
 namespace Driver.Pipeline
@@ -32,6 +33,14 @@ def handle (j : Json) : Json :=
   else if op == "work_cb_marked" then
     let marks := (jarr j "marks").map (fun b => match b with | .bool true => true | _ => false)
     jl ((workCbMarked (.nf 13) marks 0 (jnatOpt j "raise_at")).map (fun l => jl (l.map stJson)))
+  else if op == "note" then
+    -- BaseComponent.advance(thing, state, publish=True): what the notification carries
+    let stOf := fun (v : Json) => match v with
+                  | .str "FAILED" => St.failed | .str "DONE" => St.done | .str "CANCELED" => St.canceled | v => St.nf (asNat v)
+    let arg : Option St := match jget j "arg" with | .null => none | v => some (stOf v)
+    let thing := match arg with | some a => a | none => stOf (jget j "thing")
+    let n := noteOf RPVerif.Gen.publishFinalByThing (jbool j "all") arg thing
+    Json.mkObj [("state", stJson n.st), ("full", Json.bool n.full)]
   else Json.str "bad-op"
 
 end Driver.Pipeline
